@@ -604,7 +604,7 @@ PROPS.update({
     "C17": dict(module="C17", modules=["C17", "C17_precond"], run=mk("C17", ["boundary", "general", "ttl", "queue1"], 300, 5000, extra=kernel_extra("C17", ["config_accepted", "upsert_accepted"], release_extra("C17", stress2_extra("C17", "upserts")))), components=["preconditions", "panics", "roles", "api", "store", "weights", "admission", "ticker", "sketch", "tinylfu", "queue_worker", "time", "pool"],
                 assumptions=["partial: covers the panic sites the model represents (assert!/unwrap/expect/index operations/i64 overflow under the debug profile/SystemTime addition); allocation failure, thread spawn failure and panics inside dependencies are not modelled",
                              "documented preconditions: positive weights, a well-formed upsert, an upsert that turns into a put carries a value"]),
-    "C16": dict(module="C16", run=mk("C16", ["general", "reads", "ttl", "evict"], 250, 4000, extra=kernel_extra("C16", ["hit_ratio", "update_weight_stats"], stress_quiescent_extra("C16"))), components=["stats", "stats.hit_ratio", "store", "weights", "queue_worker", "api", "admission"]),
+    "C16": dict(module="C16", modules=["C16", "C16_micro"], run=mk("C16", ["general", "reads", "ttl", "evict"], 250, 4000, extra=micro_extra("C16", kernel_extra("C16", ["hit_ratio", "update_weight_stats"], stress_quiescent_extra("C16")), profiles=("general", "ttl", "queue1", "awaited"))), components=["stats", "stats.hit_ratio", "store", "weights", "queue_worker", "api", "admission"]),
 })
 
 
